@@ -129,6 +129,27 @@ class ValueMap(object):
         return arr.dtype.kind == self.dtype.kind and arr.dtype.itemsize == self.dtype.itemsize and tuple(arr.shape) == self.shape(h, w)
 
 
+# Base directories the tile histories are replayed in.  A tile file is a function of position and format only (Mask.tla does
+# not model the directory), so every history must come out the same whatever the pyramid directory is called: names with
+# glob / regex / format metacharacters, spaces, dots, a leading dash, non-ASCII, nested; absolute, relative, trailing slash.
+DIR_NAMES = ["tiles", "survey[dr2]", "M31 [v2] tiles", "a*b?c", "{x,y} 100%s %d", "-leading-dash", "v1.2.npy.d",
+             "\u00fcn\u00ef-c\u00f8d\u00e9-\u76ee\u5f55", os.path.join("lvl[0-9]", "sub dir"), "[!a]tiles[]]"]
+DIR_STYLES = ["absolute", "relative", "trailing-slash"]
+SIB_FORMAT = {"npy": "png", "png": "npy", "fits": "npy"}       # the second format a directory may hold the position in
+
+
+def pyramid_dir(root, tag, gi):
+    """the gi-th base directory: name and spelling rotate independently"""
+    name, style = DIR_NAMES[gi % len(DIR_NAMES)], DIR_STYLES[gi % len(DIR_STYLES)]
+    d = os.path.join(root, tag, name)
+    os.makedirs(d, exist_ok=True)
+    if style == "relative":
+        d = os.path.relpath(d)
+    elif style == "trailing-slash":
+        d = d + os.sep
+    return d, "%s (%s)" % (name, style)
+
+
 def decode(code, n, base):
     out = []
     for _ in range(n):
@@ -244,6 +265,9 @@ PROPERTY OtherTilesStoredAsWritten
 PROPERTY StoredTileReadsBackIdentical
 PROPERTY ReadsDoNotTouchTheFile
 PROPERTY OtherLoadersDoNotMatter
+PROPERTY OtherFormatUntouched
+PROPERTY SiblingReadsBackIdentical
+PROPERTY SiblingMaskedIsRemoved
 """
 
 
@@ -468,28 +492,82 @@ def replay_files(args):
     T = tables(path)
     h, w, V = T["h"], T["w"], 2
     n, base = h * w, V + 1
-    table = T["fmt"][fmt]             # (env, mode, code) -> {(op, mode, code): (env after, fmode, fcode, gkind, gmode, gcode, gsz)}
+    table = T["fmt"][fmt]             # (env, sib, mode, code) -> {(op, mode, code): (env', sib', fmode, fcode, gkind, gmode, gcode, gsz)}
+    sibfmt = SIB_FORMAT[fmt]
+    sibtile = decode(T["sibpx"], n, base)
     maps = dict((m, ValueMap(m)) for m in MODES)
     problems = []
     seen_keys = {}
     stats = {"calls": 0, "writes": 0, "reads": 0, "bad": 0}
-    d = os.path.join(basedir, "%s-%d" % (fmt, part))
-    pio = PyramidIO(d, default_format=fmt)
-    # a second handle on the same pyramid whose DEFAULT format differs from the tiles' format: writes that go through the
-    # read-modify-write interface use it with an explicit format= argument
-    pio_alt = PyramidIO(d, default_format=("png" if fmt != "png" else "npy"))
     pos = Pos(2, 1, 3)
-    path = pio.tile_path(pos)
     ABSENT = ("none", 0)
-    state = {"cur": ABSENT, "written": None, "env": "fresh", "others": []}
+    state = {"cur": ABSENT, "written": None, "env": "fresh", "others": [], "sib": False}
+    P = {}
+
+    def enter_dir(gi):
+        """a fresh pyramid directory (the gi-th name / spelling): nothing stored yet"""
+        d, P["dirname"] = pyramid_dir(basedir, "%s-%d-%d" % (fmt, part, gi), gi)
+        P["pio"] = PyramidIO(d, default_format=fmt)
+        # a second handle on the same pyramid whose DEFAULT format differs from the tiles' format: writes that go through
+        # the read-modify-write interface use it with an explicit format= argument
+        P["alt"] = PyramidIO(d, default_format=("png" if fmt != "png" else "npy"))
+        P["path"] = P["pio"].tile_path(pos)
+        P["sibpath"] = P["pio"].tile_path(pos, format=sibfmt)
+        state["cur"], state["written"], state["sib"] = ABSENT, None, False
+
+    def key():
+        return (state["env"], state["sib"]) + state["cur"]
 
     def lookup(call):
-        return table[(state["env"],) + state["cur"]][call][1:]
+        return table[key()][call][2:]
+
+    def check_other_format(call, what):
+        """after a call about one format's file: the other format's file is as it was"""
+        if os.path.exists(P["sibpath"]) != state["sib"]:
+            bad("file:%s:other-format-touched" % fmt, "%s: the %s file of the same position %s" % (what, sibfmt,
+                "disappeared" if state["sib"] else "appeared"), hist(call))
+            state["sib"] = os.path.exists(P["sibpath"])
+
+    def do_sib(op, salt=0):
+        """the same position in the directory's second format: store SibTile / write an all-undefined image / read"""
+        call = (op, "none", 0)
+        exp = table[key()][call]
+        sib2, gkind, gmode, gcode = exp[1], exp[4], exp[5], exp[6]
+        stats["calls"] += 1
+        stats["other_format_calls"] = stats.get("other_format_calls", 0) + 1
+        pio = P["pio"]
+        try:
+            if op == "readsib":
+                img = pio.read_image(pos, format=sibfmt)
+                got = None if img is None else (img.mode.name, maps["RGBA"].project(img.asarray()) if img.mode.name == "RGBA" else None)
+                want = None if gkind == "none" else (gmode, decode(gcode, n, base))
+                if got != want:
+                    bad("file:%s:readback" % sibfmt, "the %s file of a position also stored as %s reads back as %s, specified %s"
+                        % (sibfmt, fmt, got, want), hist(call))
+            else:
+                tile = sibtile if op == "writesib" else (0,) * n
+                pio.write_image(pos, Image.from_array(maps["RGBA"].concrete(tile, h, w, salt=salt)), format=sibfmt)
+        except Exception as ex:  # noqa
+            bad("file:%s:%s" % (sibfmt, "read" if op == "readsib" else "write"), "%s with format=%s raised %r" % (op, sibfmt, ex), hist(call))
+            return
+        exists = os.path.exists(P["sibpath"])
+        if exists != sib2:
+            bad("file:%s:%s" % (sibfmt, "stale-file-kept" if exists else "tile-not-stored"),
+                "%s with format=%s: the %s file %s" % (op, sibfmt, sibfmt, "is still there" if exists else "was not stored"), hist(call))
+            if exists and not sib2:
+                os.unlink(P["sibpath"])
+        state["sib"] = sib2
+        if os.path.exists(P["path"]) != (state["cur"] != ABSENT):
+            bad("file:%s:other-format-touched" % fmt, "%s with format=%s: the %s file of the same position %s"
+                % (op, sibfmt, fmt, "disappeared" if state["cur"] != ABSENT else "appeared"), hist(call))
+            state["cur"], state["written"] = ABSENT, None
+            if os.path.exists(P["path"]):
+                os.unlink(P["path"])
 
     def do_configure(opt):
         """Some other ImageLoader of this process is configured from command-line options (as the tiling commands do for
         their input images): with every option, or with the defaults.  No tile may notice."""
-        exp = table[(state["env"],) + state["cur"]][("configure", opt, 0)]
+        exp = table[key()][("configure", opt, 0)]
         parser = argparse.ArgumentParser()
         ImageLoader.add_arguments(parser)
         argv = [] if opt == "dflt" else ["--black-to-transparent", "--colorspace-processing", "none", "--crop", "1,2",
@@ -499,7 +577,7 @@ def replay_files(args):
         stats["calls"] += 1
         stats["configures"] = stats.get("configures", 0) + 1
         state["env"] = exp[0]
-        if (exp[1], exp[2]) != state["cur"]:
+        if (exp[2], exp[3]) != state["cur"] or exp[1] != state["sib"]:
             raise RuntimeError("TLC table: configure changes the file")
         for c in rcalls:
             do_read(c)
@@ -511,7 +589,8 @@ def replay_files(args):
             problems.append(("V", key, msg, rep))
 
     def hist(call):
-        return {"format": fmt, "other_loaders_configured": state["env"],
+        return {"format": fmt, "directory": P.get("dirname"), "other_format_present": state["sib"],
+                "other_loaders_configured": state["env"],
                 "file_before": [state["cur"][0], list(decode(state["cur"][1], n, base))],
                 "call": [call[0], call[1], list(decode(call[2], n, base))]}
 
@@ -522,9 +601,9 @@ def replay_files(args):
         stats["reads"] += 1
         try:
             if call[0] == "readnone":
-                img = pio.read_image(pos, default="none")
+                img = P["pio"].read_image(pos, default="none")
             else:
-                img = pio.read_image(pos, default="masked", masked_mode=getattr(ImageMode, call[1]))
+                img = P["pio"].read_image(pos, default="masked", masked_mode=getattr(ImageMode, call[1]))
         except Exception as ex:  # noqa
             bad("file:%s:read" % fmt, "%s of a tile file holding %s raised %r" % (call[0], state["cur"][0], ex), hist(call))
             return
@@ -583,13 +662,15 @@ def replay_files(args):
         try:
             if via_update:
                 stats["writes_via_update_image"] = stats.get("writes_via_update_image", 0) + 1
-                with pio_alt.update_image(pos, default="masked", masked_mode=img.mode, format=fmt) as buf:
+                with P["alt"].update_image(pos, default="masked", masked_mode=img.mode, format=fmt) as buf:
                     img.fill_into_maskable_buffer(buf, slice(None), slice(None), slice(None), slice(None))
             else:
-                pio.write_image(pos, img)
+                P["pio"].write_image(pos, img)
         except Exception as ex:  # noqa
             bad("file:%s:write" % fmt, "%s of a %s tile %s raised %r" % ("update_image" if via_update else "write_image", call[1], list(tile), ex), hist(call))
             return
+        path = P["path"]
+        check_other_format(call, "write of a %s tile %s" % (call[1], list(tile)))
         exists = os.path.exists(path)
         if fmode == "none" and exists:
             before = state["cur"]
@@ -611,8 +692,9 @@ def replay_files(args):
         do_read(("readnone", "none", 0))
 
     keys = sorted(table)
-    wcalls = sorted(c for c in table[("fresh",) + ABSENT] if c[0] == "write")
-    rcalls = sorted(c for c in table[("fresh",) + ABSENT] if c[0] in ("readnone", "readmasked"))
+    wcalls = sorted(c for c in table[("fresh", False) + ABSENT] if c[0] == "write")
+    rcalls = sorted(c for c in table[("fresh", False) + ABSENT] if c[0] in ("readnone", "readmasked"))
+    enter_dir(part)
     # fresh directory: every read of the missing tile
     if part == 0:
         for c in rcalls:
@@ -626,12 +708,27 @@ def replay_files(args):
             do_configure("all")
         elif i % 3 == 2:
             do_configure("dflt")
+        # every anchor's history runs in its own pyramid directory; in every second one the position is stored in a second
+        # format as well from the start, in the others towards the end
+        gi = ai // anchor_step
+        enter_dir(gi)
+        if gi % 2 == 1:
+            do_sib("writesib", ai)
+            do_sib("readsib")
         do_write(a, ai)
         for c in rcalls:
             do_read(c)
         for ci in range(ai, len(wcalls)):
             do_write(wcalls[ci], ci + 1)
             do_write(a, ai)
+        if gi % 2 == 0:
+            do_sib("writesib", ai)
+        do_sib("readsib")
+        do_read(("readnone", "none", 0))
+        do_sib("masksib", ai)
+        do_sib("readsib")
+        do_read(("readnone", "none", 0))
+    stats["directories"] = len(anchors[part::nparts]) + 1
     return tag, fmt, stats, problems
 
 
@@ -684,8 +781,10 @@ def replay_pairs(args):
                     hd["cm"].__exit__(None, None, None)
                 except Exception:  # noqa
                     pass
-        d = os.path.join(basedir, "pair-%s-%s-%d" % (fmt, mode, stats["resets"]))
+        # every new start gets the next base-directory name / spelling
+        d, R["dirname"] = pyramid_dir(basedir, "pair-%s-%s-%d" % (fmt, mode, stats["resets"]), stats["resets"] + len(mode))
         R["dir"] = d
+        R["since"] = stats["calls"]
         R["pio"] = PyramidIO(d, default_format=fmt)
         R["obs"] = PyramidIO(d, default_format=fmt)          # an independent observer of the tile files
         R["hand"] = {}
@@ -746,7 +845,7 @@ def replay_pairs(args):
     def compare(call, exp):
         """the real state against TLC's state after the call; returns True when they agree"""
         ok = True
-        rep = {"format": fmt, "mode": mode, "history": list(R["trail"]), "specified_state": exp}
+        rep = {"format": fmt, "mode": mode, "directory": R["dirname"], "history": list(R["trail"]), "specified_state": exp}
         for k in (1, 2):
             pos, code = exp[3 + k]
             hd = R["hand"].get(k)
@@ -814,6 +913,8 @@ def replay_pairs(args):
     reset()
     cur = init
     while left and stats["bad"] < 40:
+        if cur == init and stats["calls"] - R["since"] > 400:
+            reset()                       # nothing stored, nothing alive: carry on in a differently named directory
         if todo[cur]:
             call, nx = todo[cur].pop()
             left -= 1
@@ -895,16 +996,18 @@ def dump_buf_tables(ctx, r, job):
 def dump_file_tables(ctx, r, job):
     fm = {}
     nedge = 0
+    sibpx = 0
     for rec in r.json_lines("F"):
         t = fm.setdefault(rec["fmt"], {})
         ed = {}
         for e in rec["edges"]:
             ed[(e[0], e[1], e[2])] = tuple(e[3:])
-        t[(rec["env"], rec["mode"], rec["px"])] = ed
+        t[(rec["env"], rec["sib"], rec["mode"], rec["px"])] = ed
+        sibpx = rec["sibpx"]
         nedge += len(ed)
     path = os.path.join(ctx.scratch, "%s.pkl" % job["name"])
     with open(path, "wb") as f:
-        pickle.dump({"fmt": fm, "h": job["h"], "w": job["w"]}, f, protocol=pickle.HIGHEST_PROTOCOL)
+        pickle.dump({"fmt": fm, "h": job["h"], "w": job["w"], "sibpx": sibpx}, f, protocol=pickle.HIGHEST_PROTOCOL)
     return fm, path, nedge
 
 
@@ -943,7 +1046,7 @@ def _run(ctx, pool, rng, quick):
         jobs.append(buf_job("MCBuf22r", 2, 2, t22, {(0,) * 4}, [], ["slice", "rev"], True, 3))
         jobs.append(buf_job("MCBuf23", 2, 3, t23, t23, fancy_sample(rng, 2, 3, 150), ["slice"], False, 6))
         ftiles = all_tiles(4)
-    jobs.append(file_job("MCFile", 2, 2, ftiles, ["png", "npy", "fits"], 2 if quick else 4))
+    jobs.append(file_job("MCFile", 2, 2, ftiles, ["png", "npy", "fits"], 3 if quick else 4))
     if quick:
         jobs.append(pair_job("MCPair", 1, 2, ["F32", "U8", "RGBA"], ["npy"], [(1, 2), (2, 0)], 2))
     else:
@@ -1040,9 +1143,9 @@ def _run(ctx, pool, rng, quick):
     for fmt in sorted(ftab)[:2]:
         key = sorted(ftab[fmt])[1]
         call = sorted(c for c in ftab[fmt][key] if c[0] == "write")[0]
-        ctx.sample({"format": fmt, "other_loaders": key[0], "file": [key[1], decode(key[2], 4, 3)],
+        ctx.sample({"format": fmt, "other_loaders": key[0], "other_format_present": key[1], "file": [key[2], decode(key[3], 4, 3)],
                     "call": [call[0], call[1], decode(call[2], 4, 3)],
-                    "specified_file_after": [ftab[fmt][key][call][1], decode(ftab[fmt][key][call][2], 4, 3)]})
+                    "specified_file_after": [ftab[fmt][key][call][2], decode(ftab[fmt][key][call][3], 4, 3)]})
     ctx.assume("integer modes are exercised with non-negative values only (the statement's domain for the larger-value rule)")
     ctx.assume("'an all-undefined tile is never stored' is asserted for the modes that can represent one (RGBA, F32, F64, F16x3); "
                "is_completely_masked is False by design for RGB and the integer modes and nothing is asserted about storing all-zero tiles")
